@@ -38,7 +38,10 @@ RULE = (
     "group subscriber have terminated or unsubscribed, no source subscription may remain open.  Non-trivial: a key "
     "re-created after expiry, or >=2 groups open when the source errors (derived durations: when it terminates either "
     "way); partition: both outputs non-empty; early exit: all consumers gone while a group's duration was still pending.  "
-    "Distinct = distinct case JSON."
+    "Second subscription (group_by, group_by_until, derived durations): in about a third of the cases the SAME built "
+    "observable is subscribed a second time, after the first subscription is over or overlapping it 1..3 ticks later; "
+    "each subscription is judged by the same reference from its own subscribe tick (timeline durations are then a single "
+    "timeline); failures of the second subscription carry the suffix ':2nd-subscription'.  Distinct = distinct case JSON."
 )
 ASSUMPTIONS = [
     "key identity is Python dict identity (== and hash): 0, 0.0 and False share one group, as do 1 and True; the group's key attribute is the key of the element that created it",
@@ -59,13 +62,54 @@ def _effective(spec, sub):
     return [[t, k, p] for t, k, p in tl if (t >= 0 if sub == 0 else t > sub)]
 
 
-def _horizon(case):
+def _span(case):
     h = max([m[0] for m in case["src"]["tl"]] or [0])
     extra = 2
     for c in case.get("durations") or ():
         if c["dt"] is not None:
             extra = max(extra, c["dt"] + 2)
-    return h + case.get("sub", 0) + extra + 2
+    return h + extra + 2
+
+
+def _subs(case):
+    """Subscribe ticks: the first subscription and, with case["resub"], a second subscription of the SAME built
+    observable - after everything of the first has happened ("after") or overlapping it ("overlap", `at` ticks later)."""
+    sub = case.get("sub", 0)
+    r = case.get("resub")
+    if not r:
+        return [sub]
+    if r["mode"] == "after":
+        return [sub, sub + _span(case) + 1]
+    return [sub, sub + r["at"]]
+
+
+def _horizon(case):
+    return max(_subs(case)) + _span(case)
+
+
+SECOND = ":2nd-subscription"
+
+
+def _subscribe_all(lab, case, obs, inner):
+    probes = []
+    for i, s in enumerate(_subs(case)):
+        p = lab.probe("p" if i == 0 else f"q{i}", inner=inner)
+        probes.append(p)
+        if s == 0:
+            try:
+                p.subscribe(obs)
+            except Exception as e:  # noqa: synchronous sources emit inside subscribe()
+                lab.escaped = e
+        else:
+            lab.at(s, lambda p=p: p.subscribe(obs))
+    return probes
+
+
+def _resub_classes(case, i):
+    r = case.get("resub")
+    if not r:
+        return []
+    return ["second-subscription:" + r["mode"]] if i == 1 else ["resubscribed-case"]
 
 
 def _keyfn(spec):
@@ -87,8 +131,11 @@ def _dur_obs(lab, c):
     return lab.cold([[c["dt"], c["kind"], "i0" if c["kind"] == "N" else None]])
 
 
-def _observe(p, keys):
+def _observe(p, lab):
+    """Groups seen by probe p; each group's key is read from the emitted GroupedObservable itself."""
+    by_id = {idx: o for idx, o in lab._obs_ids.values()}
     outer_n = [e for e in p.events if e[1] == "N"]
+    keys = [canon(by_id[ip.obs].key) for ip in p.inners]
     groups = []
     for e, ip, k in zip(outer_n, p.inners, keys):
         t = ip.terminal()
@@ -115,7 +162,7 @@ def _clause(exp, got):
 
 def _run_group(case):
     f = case["form"]
-    sub = case.get("sub", 0)
+    subs = _subs(case)
     lab = Lab()
     src = lab.source(case["src"], "src")
     keyfn = _keyfn(case["key"])
@@ -129,14 +176,10 @@ def _run_group(case):
     else:
         durm = lab.fn("dur", lambda g: _dur_obs(lab, durs[(lab.cb_count["dur"] - 1) % len(durs)]))
         op = ops.group_by_until(keyf, elemf, durm)
-    keys = []
-    obs = src.pipe(op, ops.do_action(lambda g: keys.append(canon(g.key))))
-    p = lab.probe("p", inner=INNER)
-    if sub == 0:
-        p.subscribe(obs)
-    else:
-        lab.at(sub, lambda: p.subscribe(obs))
-    lab.run(until=_horizon(case))
+    obs = src.pipe(op)
+    probes = _subscribe_all(lab, case, obs, INNER)
+    if lab.escaped is None:
+        lab.run(until=_horizon(case))
     if lab.escaped is not None:
         raise lab.escaped
     if lab.inconclusive:
@@ -145,14 +188,30 @@ def _run_group(case):
         ok, msg = q.grammar_ok()
         if not ok:
             return FAIL(f"{f}:grammar", f"{msg} case={case}")
-    got = _observe(p, keys)
+    cls_all, nt = [], False
+    for i, (sub, p) in enumerate(zip(subs, probes)):
+        res, cls, nt_i = _judge_group(case, i, sub, p, lab, keyfn, elemfn, durs)
+        cls_all = cls_all + [c for c in cls if c not in cls_all]
+        if res is not None:
+            return res
+        if i == 0:
+            nt = nt_i
+        elif nt_i or any(ip.events for ip in p.inners):
+            cls_all.append("second-subscription-has-groups")
+    return OK(nt, cls_all)
+
+
+def _judge_group(case, i, sub, p, lab, keyfn, elemfn, durs):
+    f = case["form"]
+    sfx = SECOND if i == 1 else ""
+    got = _observe(p, lab)
     eff = [[t, k, val(pl) if k == "N" else pl] for t, k, pl in _effective(case["src"], sub)]
     sim = refwin.sim_group_by_until(eff, sub, keyfn, elemfn, durs, _horizon(case))
     first, matched, ties = None, None, 0
     try:
         for choice, out in refwin.outcomes(sim, 512):
             if choice is None:
-                return SKIP("too-many-ties")
+                return SKIP("too-many-ties"), [], False
             if first is None:
                 first = out
             ties = max(ties, out["ties"])
@@ -160,9 +219,9 @@ def _run_group(case):
                 matched = (choice, out)
                 break
     except refwin.SimSpin:
-        return SKIP("sim-spin")
+        return SKIP("sim-spin"), [], False
     ref = matched[1] if matched else first
-    cls = ["form:" + f, "src:" + case["src"]["kind"], "key:" + case["key"]["mode"]]
+    cls = ["form:" + f, "src:" + case["src"]["kind"], "key:" + case["key"]["mode"]] + _resub_classes(case, i)
     tl = case["src"]["tl"]
     cls.append("term:" + (tl[-1][1] if tl and tl[-1][1] in ("C", "E") else "never"))
     if case.get("elem"):
@@ -185,8 +244,12 @@ def _run_group(case):
     if len(got["groups"]) >= 3:
         cls.append(">=3-groups")
     if matched is None:
-        return FAIL(f"{f}:{_clause(first, got)}|{f}", f"case={case} observed={got} expected(one of, first shown)={ {k: first[k] for k in ('groups', 'outer_end')} }", classes=cls)
-    return OK(bool(ref["recreated"]) or ref["open_at_error"] >= 2, cls)
+        return (
+            FAIL(f"{f}:{_clause(first, got)}{sfx}|{f}", f"subscription#{i} at {sub} case={case} observed={got} expected(one of, first shown)={ {k: first[k] for k in ('groups', 'outer_end')} }", classes=cls),
+            cls,
+            False,
+        )
+    return None, cls, bool(ref["recreated"]) or ref["open_at_error"] >= 2
 
 
 def _predfn(spec, indexed):
@@ -311,7 +374,7 @@ def _derived_duration(lab, rule):
 
 def _run_derived(case):
     f = "group_by_until"
-    sub = case.get("sub", 0)
+    subs = _subs(case)
     rule = case["rule"]
     early = case.get("take") is not None
     lab = Lab()
@@ -321,22 +384,15 @@ def _run_derived(case):
     keyf = lab.fn("key", keyfn)
     elemf = lab.fn("elem", elemfn) if case.get("elem") else None
     durm = lab.fn("dur", _derived_duration(lab, rule))
-    keys = []
-    chain = [ops.group_by_until(keyf, elemf, durm), ops.do_action(lambda g: keys.append(canon(g.key)))]
+    chain = [ops.group_by_until(keyf, elemf, durm)]
     if early:
         chain.append(ops.take(case["take"]))
     obs = src.pipe(*chain)
     inner = dict(INNER)
     if case.get("unsub") is not None:
         inner["unsub"] = case["unsub"]
-    p = lab.probe("p", inner=inner)
-    if sub == 0:
-        try:
-            p.subscribe(obs)
-        except Exception as e:  # noqa: synchronous sources emit inside subscribe()
-            lab.escaped = e
-    else:
-        lab.at(sub, lambda: p.subscribe(obs))
+    probes = _subscribe_all(lab, case, obs, inner)
+    p = probes[0]
     if lab.escaped is None:
         lab.run(until=_horizon(case) + 6)
     cls = ["form:derived", "rule:" + rule["mode"], "src:" + case["src"]["kind"], "key:" + case["key"]["mode"]]
@@ -369,20 +425,33 @@ def _run_derived(case):
             )
         pending = gone and any(ip.terminal() is None for ip in p.inners)
         return OK(pending, cls + (["group-duration-pending-at-exit"] if pending else []))
-    got = _observe(p, keys)
-    eff = [[t, k, val(pl) if k == "N" else pl] for t, k, pl in _effective(case["src"], sub)]
-    ref = _derived_reference(eff, keyfn, elemfn, rule)
-    if case.get("elem"):
-        cls.append("element-mapper")
-    if ref["recreated"]:
-        cls.append("key-recreated-after-expiry")
-    if ref["open_at_terminal"] >= 2:
-        cls.append(f">=2-groups-open-at-{termk}")
-    if any(g["end"] and g["end"][1] == "C" and len(g["items"]) >= 2 and (ref["outer_end"] is None or g["end"][0] < ref["outer_end"][0] or g["end"] != ref["outer_end"]) for g in ref["groups"]):
-        cls.append("group-of->=2-closed-by-its-own-element")
-    if not _same(ref, got):
-        return FAIL(f"{f}:derived-duration:{_clause(ref, got)}|{f}", f"case={case} observed={got} expected={ {k: ref[k] for k in ('groups', 'outer_end')} }", classes=cls)
-    return OK(bool(ref["recreated"]) or ref["open_at_terminal"] >= 2, cls)
+    nt = False
+    for i, (sub, q) in enumerate(zip(subs, probes)):
+        sfx = SECOND if i == 1 else ""
+        got = _observe(q, lab)
+        eff = [[t, k, val(pl) if k == "N" else pl] for t, k, pl in _effective(case["src"], sub)]
+        ref = _derived_reference(eff, keyfn, elemfn, rule)
+        for c in _resub_classes(case, i):
+            cls.append(c)
+        if i == 0:
+            if case.get("elem"):
+                cls.append("element-mapper")
+            if ref["recreated"]:
+                cls.append("key-recreated-after-expiry")
+            if ref["open_at_terminal"] >= 2:
+                cls.append(f">=2-groups-open-at-{termk}")
+            if any(g["end"] and g["end"][1] == "C" and len(g["items"]) >= 2 and (ref["outer_end"] is None or g["end"][0] < ref["outer_end"][0] or g["end"] != ref["outer_end"]) for g in ref["groups"]):
+                cls.append("group-of->=2-closed-by-its-own-element")
+            nt = bool(ref["recreated"]) or ref["open_at_terminal"] >= 2
+        elif ref["groups"]:
+            cls.append("second-subscription-has-groups")
+        if not _same(ref, got):
+            return FAIL(
+                f"{f}:derived-duration:{_clause(ref, got)}{sfx}|{f}",
+                f"subscription#{i} at {sub} case={case} observed={got} expected={ {k: ref[k] for k in ('groups', 'outer_end')} }",
+                classes=cls,
+            )
+    return OK(nt, cls)
 
 
 def _run(case):
@@ -400,8 +469,11 @@ _sub = st.sampled_from([0, 0, 0, 2])
 _dur = st.fixed_dictionaries({"dt": st.sampled_from([0, 1, 1, 2, 2, 3, 4, 6, None]), "kind": st.sampled_from(["N", "N", "C"])})
 
 
+_resub = st.sampled_from([None, None, None, None, {"mode": "after"}, {"mode": "after"}, {"mode": "overlap", "at": 1}, {"mode": "overlap", "at": 3}])
+
+
 @st.composite
-def _group_cases(draw, form):
+def _group_cases(draw, form, resub_ok=True):
     mode = draw(st.sampled_from(["hash", "hash", "hash", "ident"]))
     names = HASHABLE_NAMES if mode == "ident" else NAMES
     if mode == "ident" and draw(st.booleans()):
@@ -415,8 +487,13 @@ def _group_cases(draw, form):
         n = draw(st.sampled_from([1, 2, 2, 3, 3, 4, 5]))
         key["palette"] = draw(st.lists(st.sampled_from(KEY_NAMES), min_size=n, max_size=n))
     case = {"form": form, "src": src, "sub": draw(_sub), "key": key, "elem": draw(st.sampled_from([None, None, "tag"]))}
+    resub = draw(_resub) if resub_ok else None
+    if resub is not None:
+        case["resub"] = resub
     if form == "group_by_until":
-        case["durations"] = draw(st.lists(_dur, min_size=1, max_size=3))
+        # the duration list is consumed round-robin by a per-observable call counter: with two subscriptions the
+        # reference can only predict it when there is a single duration
+        case["durations"] = draw(st.lists(_dur, min_size=1, max_size=1 if resub else 3))
     return case
 
 
@@ -451,7 +528,7 @@ _rule = st.one_of(
 
 @st.composite
 def _derived_cases(draw, early):
-    case = draw(_group_cases("group_by"))
+    case = draw(_group_cases("group_by", resub_ok=not early))
     case["form"] = "derived"
     case["rule"] = draw(_rule)
     if early:
